@@ -50,12 +50,16 @@ type c06Mappings struct {
 	m      map[string]*models.PortMapping
 	nextID int
 	slow   time.Duration // creating a mapping takes this long (slow storage)
+	fail   bool          // creating a mapping fails (storage error)
 }
 
 func (p *c06Mappings) CreatePortMapping(mp *models.PortMapping) (*models.PortMapping, error) {
 	verif_Yield()
 	if p.slow > 0 {
 		time.Sleep(p.slow)
+	}
+	if p.fail {
+		return nil, errors.New("c06: mapping store unavailable")
 	}
 	p.nextID++
 	c := *mp
